@@ -56,17 +56,6 @@ Definition clean_comp (c : bytes) : bool :=
   negb (bytes_eqb c []) && negb (is_dot c) && negb (is_dotdot c)
   && negb (contains_byte c_slash c) && negb (contains_byte x00 c).
 
-(* the string is an absolute clean path: "/" c1 "/" c2 ... *)
-Definition parse_abs (s : bytes) : option path :=
-  match s with
-  | b :: r =>
-      if beq b c_slash then
-        let cs := split_slash [] r in
-        if forallb clean_comp cs then Some cs else None
-      else None
-  | [] => None
-  end.
-
 Definition is_abs (s : bytes) : bool :=
   match s with b :: _ => beq b c_slash | [] => false end.
 
@@ -79,6 +68,22 @@ Definition clean_step (acc : path) (c : bytes) : path :=
   else acc ++ [c].
 Definition clean_join (base : path) (rel : bytes) : path :=
   fold_left clean_step (split_slash [] rel) base.
+
+(* the string is an absolute path; moveOutFile works on filepath.Clean of it
+   (a trailing separator, empty and "." components dropped, ".." resolved
+   lexically): "/" c1 "/" c2 ...; the root itself is not a file *)
+Definition parse_abs (s : bytes) : option path :=
+  match s with
+  | b :: r =>
+      if beq b c_slash then
+        let cs := clean_join [] r in
+        match cs with
+        | [] => None
+        | _ => if forallb clean_comp cs then Some cs else None
+        end
+      else None
+  | [] => None
+  end.
 
 (* filepath.Rel(render base, render targ) for clean absolute paths *)
 Fixpoint strip_common (a b : path) : path * path :=
